@@ -55,9 +55,49 @@ type Solver struct {
 	NeedModel bool      // set by the caller when the model of this query is needed
 	CacheHits int
 	Trace     io.Writer // optional: dump of everything sent
+	bin       string
+	alt       *Solver // portfolio partner
+	last      *Solver // process holding the model of the last Sat answer
+	PortWins  [2]int
+	Fallbacks int
 }
 
+// restart replaces a (killed) solver process by a fresh one.
+func (s *Solver) restart() {
+	if s.cmd != nil && s.cmd.Process != nil {
+		s.cmd.Process.Kill()
+		s.cmd.Wait()
+	}
+	n, err := NewSolver(s.bin, s.TimeoutMs)
+	if err != nil {
+		s.LastErr = "restart failed: " + err.Error()
+		return
+	}
+	s.cmd, s.in, s.out = n.cmd, n.in, n.out
+	s.frameOpen, s.dirty = false, false
+}
+
+// NewSolver starts a solver. The name "portfolio" runs z3 4.8.12 and z3 5.1.0
+// side by side on large queries and takes the first definitive answer (their
+// running times on the interval-arithmetic queries of the record-layer
+// harnesses differ by an order of magnitude in both directions); small
+// queries go to z3 4.8.12 incrementally.
 func NewSolver(name string, timeoutMs int) (*Solver, error) {
+	if name == "portfolio" {
+		a, err := NewSolver("z3", timeoutMs)
+		if err != nil {
+			return nil, err
+		}
+		b, err := NewSolver("z3-new", timeoutMs)
+		if err != nil {
+			a.Close()
+			return nil, err
+		}
+		a.alt = b
+		a.Name = "portfolio"
+		a.bin = "z3"
+		return a, nil
+	}
 	var cmd *exec.Cmd
 	switch name {
 	case "z3", "z3-new":
@@ -80,7 +120,7 @@ func NewSolver(name string, timeoutMs int) (*Solver, error) {
 	if err := cmd.Start(); err != nil {
 		return nil, err
 	}
-	s := &Solver{Name: name, cmd: cmd, in: in, out: bufio.NewReaderSize(outp, 1<<20), TimeoutMs: timeoutMs}
+	s := &Solver{Name: name, bin: name, cmd: cmd, in: in, out: bufio.NewReaderSize(outp, 1<<20), TimeoutMs: timeoutMs}
 	if name == "cvc5" {
 		s.send("(set-logic ALL)\n")
 	} else {
@@ -93,6 +133,9 @@ func NewSolver(name string, timeoutMs int) (*Solver, error) {
 func (s *Solver) Close() {
 	if s == nil || s.cmd == nil {
 		return
+	}
+	if s.alt != nil {
+		s.alt.Close()
 	}
 	s.in.Close()
 	done := make(chan struct{})
@@ -249,10 +292,67 @@ func (s *Solver) Check(ctx *Ctx, assertions []*Term) Result {
 			return v.(Result)
 		}
 	}
+	s.Queries++
+	s.last = s
+	var res Result
+	large := hasFP
+	if !large && s.bin != "cvc5" {
+		// small query: incremental core with a short time limit; its verdicts
+		// are fine but it gives up on some arithmetic the tactic pipeline
+		// decides at once, so unknown falls through to the non-incremental mode
+		res = s.runTextT(text, false, 1500)
+		if res == Unknown {
+			large = true
+			s.Fallbacks++
+		}
+	}
+	if large || s.bin == "cvc5" {
+		if s.alt != nil {
+			res = s.portfolio(text)
+		} else {
+			res = s.runTextT(text, s.bin != "cvc5", s.TimeoutMs)
+		}
+	}
+	s.SolveTime += time.Since(start)
+	if s.Cache != nil && res != Unknown {
+		if !s.NeedModel {
+			s.Cache.Store(key, res)
+		} else {
+			s.Cache.Store(sha256.Sum256([]byte(text)), res)
+		}
+	}
+	if d := time.Since(start); slowMs > 0 && d > time.Duration(slowMs)*time.Millisecond {
+		slowN++
+		fn := fmt.Sprintf("/tmp/gosym-slow-%d-%d.smt2", os.Getpid(), slowN)
+		os.WriteFile(fn, []byte(text), 0o644)
+		fmt.Fprintf(os.Stderr, "SLOW query %v -> %s (%s)\n", d, res, fn)
+	}
+	switch res {
+	case Sat:
+		s.SatN++
+	case Unsat:
+		s.UnsatN++
+	default:
+		s.UnknownN++
+	}
+	return res
+}
+
+// runText sends one query to this process and reads the verdict. large
+// queries use (reset), which puts z3 back into its non-incremental mode (its
+// tactic pipeline decides the floating-point and interval-arithmetic queries
+// the incremental core times out on); the process stays alive.
+func (s *Solver) runText(text string, large bool) Result {
+	return s.runTextT(text, large, s.TimeoutMs)
+}
+
+func (s *Solver) runTextT(text string, large bool, timeoutMs int) Result {
 	var sb strings.Builder
-	if s.Name == "cvc5" || !hasFP {
+	if s.bin != "cvc5" && !large {
+		fmt.Fprintf(&sb, "(set-option :timeout %d)\n", timeoutMs)
+	}
+	if s.bin == "cvc5" || !large {
 		if s.dirty {
-			// base-level definitions of a reset-mode query are still around
 			sb.WriteString("(reset)\n")
 			fmt.Fprintf(&sb, "(set-option :timeout %d)\n(set-option :produce-models true)\n", s.TimeoutMs)
 			s.dirty = false
@@ -265,40 +365,58 @@ func (s *Solver) Check(ctx *Ctx, assertions []*Term) Result {
 		s.frameOpen = true
 	} else {
 		s.dirty = true
-		// (reset) instead of push/pop puts z3 back into its non-incremental mode,
-		// whose tactic pipeline decides the floating-point queries the incremental
-		// core times out on; the process stays alive, so start-up is paid once.
 		sb.WriteString("(reset)\n")
 		fmt.Fprintf(&sb, "(set-option :timeout %d)\n(set-option :produce-models true)\n", s.TimeoutMs)
 		s.frameOpen = false
 	}
 	sb.WriteString(text)
 	s.send(sb.String())
-	s.Queries++
-	res := s.readResult()
-	s.SolveTime += time.Since(start)
-	if s.Cache != nil && res != Unknown {
-		if !s.NeedModel {
-			s.Cache.Store(key, res)
-		} else {
-			s.Cache.Store(sha256.Sum256([]byte(text)), res)
+	return s.readResult()
+}
+
+// portfolio runs the query on both processes and takes the first definitive
+// verdict; the loser is killed and restarted.
+func (s *Solver) portfolio(text string) Result {
+	type ans struct {
+		res Result
+		who *Solver
+	}
+	ch := make(chan ans, 2)
+	go func() { ch <- ans{s.runText(text, true), s} }()
+	go func() { ch <- ans{s.alt.runText(text, true), s.alt} }()
+	first := <-ch
+	if first.res == Unknown {
+		second := <-ch
+		s.last = second.who
+		if second.res != Unknown {
+			if second.who == s {
+				s.PortWins[0]++
+			} else {
+				s.PortWins[1]++
+			}
 		}
+		return second.res
 	}
-	if d := time.Since(start); slowMs > 0 && d > time.Duration(slowMs)*time.Millisecond {
-		slowN++
-		fn := fmt.Sprintf("/tmp/gosym-slow-%d-%d.smt2", os.Getpid(), slowN)
-		os.WriteFile(fn, []byte(sb.String()), 0o644)
-		fmt.Fprintf(os.Stderr, "SLOW query %v -> %s (%s)\n", d, res, fn)
+	loser := s.alt
+	if first.who == s.alt {
+		loser = s
+		s.PortWins[1]++
+	} else {
+		s.PortWins[0]++
 	}
-	switch res {
-	case Sat:
-		s.SatN++
-	case Unsat:
-		s.UnsatN++
+	s.last = first.who
+	// stop the loser: kill the process (its reader returns Unknown), then restart
+	select {
+	case <-ch:
+		// finished in the meantime
 	default:
-		s.UnknownN++
+		if loser.cmd != nil && loser.cmd.Process != nil {
+			loser.cmd.Process.Kill()
+		}
+		<-ch
+		loser.restart()
 	}
-	return res
+	return first.res
 }
 
 func (s *Solver) readResult() Result {
@@ -343,6 +461,9 @@ func (s *Solver) drainUntilAnswer() {
 // fly inside the open frame is not possible after check-sat in all solvers, so
 // unknown variables get value 0 and are reported in the second result).
 func (s *Solver) Values(ctx *Ctx, terms []*Term) (map[int]uint64, error) {
+	if s.last != nil && s.last != s {
+		return s.last.Values(ctx, terms)
+	}
 	res := map[int]uint64{}
 	if len(terms) == 0 {
 		return res, nil
